@@ -132,17 +132,15 @@ func checkC15(c *Ctx) {
 	comments := []struct {
 		src  string
 		line bool
-	}{{"// c", true}, {"//c", true}, {"/* c */", false}, {"/*c*/", false}, {"/* c\nc */", false}, {"/**/", false}}
+		term string // what ends a line comment: LF, a lone CR or CRLF
+	}{{"// c", true, "\n"}, {"//c", true, "\n"}, {"// c", true, "\r"}, {"//c", true, "\r\n"}, {"/* c */", false, ""}, {"/*c*/", false, ""}, {"/* c\nc */", false, ""}, {"/**/", false, ""}}
 	for _, t1 := range pieces {
 		for _, t2 := range pieces {
 			for _, cm := range comments {
 				for _, pre := range []string{"", "{$x}", "{sp}", "{call .empty /}", "{call .empty}{/call}", "y/* d */"} {
 					t1, t2, cm, pre := t1, t2, cm, pre
 					src := pre + t1 + cm.src
-					if cm.line {
-						src += "\n"
-					}
-					src += t2
+					src += cm.term + t2
 					// is the line comment really a comment? only after whitespace (or at the very start of the file, which a template body never is)
 					isComment := true
 					if cm.line {
@@ -157,7 +155,7 @@ func checkC15(c *Ctx) {
 					if !isComment {
 						expectChars = squeeze(prePrinted(pre) + t1 + cm.src + t2)
 					}
-					add(c15item{body: src, ctx: "comment", sigcls: fmt.Sprintf("comment:%q after %q", cm.src, lastByteClass(pre+t1)), weak: func(out string) string {
+					add(c15item{body: src, ctx: "comment", sigcls: fmt.Sprintf("comment:%q ended by %q after %q", cm.src, cm.term, lastByteClass(pre+t1)), weak: func(out string) string {
 						if squeeze(out) != expectChars {
 							return fmt.Sprintf("non-whitespace characters %q, want %q", squeeze(out), expectChars)
 						}
